@@ -101,13 +101,17 @@ func (ps *ProcessSet) StartAll(ctx context.Context) error {
 	go ps.run(ctx)
 
 	for _, process := range ps.executes {
+		// the watcher must be subscribed before the process starts, otherwise a
+		// process that finishes quickly emits its cease-flow trace unseen and the
+		// set never completes
+		traces := process.Tracer().Subscribe()
+		ps.wg.Add(1)
+		go ps.tracerProcess(ctx, process, traces, &ps.wg)
+
 		err := process.StartAll(ctx)
 		if err != nil {
 			return fmt.Errorf("start process %s: %w", process.Id().String(), err)
 		}
-
-		ps.wg.Add(1)
-		go ps.tracerProcess(ctx, process, &ps.wg)
 	}
 
 	return nil
@@ -151,13 +155,15 @@ func (ps *ProcessSet) run(ctx context.Context) {
 							continue
 						}
 
+						traces := process.Tracer().Subscribe()
+						ps.wg.Add(1)
+						go ps.tracerProcess(ctx, process, traces, &ps.wg)
+
 						err = process.StartWith(ctx, startFlowNode)
 						if err != nil {
 							ps.tracer.Send(ErrorTrace{Error: err})
 							continue
 						}
-						ps.wg.Add(1)
-						go ps.tracerProcess(ctx, process, &ps.wg)
 					}
 					cancel, found := ps.triggerCatch(string(sourceRef.TargetRefField))
 					if found {
@@ -174,10 +180,9 @@ func (ps *ProcessSet) run(ctx context.Context) {
 	}
 }
 
-func (ps *ProcessSet) tracerProcess(ctx context.Context, process *Process, wg *sync.WaitGroup) {
+func (ps *ProcessSet) tracerProcess(ctx context.Context, process *Process, traces chan tracing.ITrace, wg *sync.WaitGroup) {
 	defer wg.Done()
 
-	traces := process.Tracer().Subscribe()
 	defer process.tracer.Unsubscribe(traces)
 
 LOOP:
